@@ -1,7 +1,7 @@
 CONSTANTS
   Sites <- SiteTable
-  BITS = 8
-  ERAS = 3
+  BITS = 6
 SPECIFICATION GenSpec
-INVARIANT EmitPlace
+INVARIANT ILifted
+INVARIANT EmitFresh
 CHECK_DEADLOCK FALSE
